@@ -68,6 +68,27 @@ MISSED = {
     "C17-g": "no section name contained '$'; added",
     "C18-g": "fragments were only tried on a single base; added every position of a two- and three-base extends",
     "C19-g": "loads were never ended by something that is not an Exception; added KeyboardInterrupt / SystemExit raised by a datatype, at every depth",
+    "C01-i": "an exception outside the configuration-error family on a non-conforming text was left to C07; it is now a violation of C01's last clause as well",
+    "C02-j": "no schema of the family gave a section type its own prefix; the prefix scenarios of C11 are now also run for the value tree",
+    "C03-i": "texts were only read from streams; a sample (all texts with line-boundary characters, very long lines) is now also read from a file through openResource and compared",
+    "C03-j": "'% define', '%\\tinclude', '%Include' were not among the line shapes; added",
+    "C04-j": "no environment variable was set to the empty string; some are now",
+    "C05-j": "define names with parentheses were never tried; added",
+    "C06-j": "the top resource was never named through a symbolic link; added a linked file and a linked directory on the way",
+    "C07-j": "directives in other letter case or with a blank after '%' were not among the mutation material; added",
+    "C08-j": "unknown / repeated keys always had a value; 40% are now written alone on their line",
+    "C10-i": "ill-formed names were only tried on <sectiontype>; added <abstracttype>",
+    "C10-j": "'*' was only tried as a <key> name; added <multikey name='*'>",
+    "C12-i": "no schema had a key-less implementer that a component could redefine; added (and duplicate EMPTY types in C10)",
+    "C12-j": "a component failing half-way with an error that is not a ZConfig error (malformed XML) on a reused loader was only in C19's scenarios; C12 now has its own",
+    "C13-i": "the reused-loader history only had a %import failing before the component is read; added components failing while being read",
+    "C13-j": "no datatype name was unresolvable at its last part; added, same text twice on one schema",
+    "C15-i": "comment lines never contained line-boundary characters in the middle and re-laid-out texts were never read from a file; both added",
+    "C15-j": "no line was longer than a few hundred characters and indentation never exceeded three units; added very long comment lines and deep indentation",
+    "C17-j": "no line was longer than a few hundred characters; added long lines, indented and unindented inside sections",
+    "C18-i": "non-ASCII file names were always precomposed; added decomposed letters (and the check now reports recorded violations when the harness itself crashes later)",
+    "C19-j": "the caller's file of the file-object entry points was never checked with a URL argument; added every combination of entry point, content and URL (also with a fragment)",
+    "C20-j": "factory.reopen() was never called after a handler had been closed; added",
     "C20-f": "the same logger name was never configured twice with different 'propagate'; added",
 }
 
